@@ -306,10 +306,12 @@ pub fn gen_rel(t: &mut Tape, o: &RelOpts) -> Rel {
     }
     if t.chance(1, 4) {
         let neg = o.negated_archs && t.chance(1, 3);
-        // Policy: either all architectures are negated or none
-        let mut a = vec![(neg, t.pick(ARCHES).to_string())];
+        // Policy wants all architectures negated or none; the grammar ([!]arch ...) also admits mixed lists, which the
+        // readers must report as written
+        let mixed = o.negated_archs && t.chance(1, 4);
+        let mut a = vec![(if mixed { t.flag() } else { neg }, t.pick(ARCHES).to_string())];
         while t.more(a.len(), 1, 4, 1, 3) {
-            a.push((neg, t.pick(ARCHES).to_string()));
+            a.push((if mixed { t.flag() } else { neg }, t.pick(ARCHES).to_string()));
         }
         r.archs = Some(a);
     }
